@@ -178,3 +178,57 @@ extern "C" void h_fm_one_sector(void)
   if (!intact && data_err != 0 && id_err == 0 && !deleted) vf_witness("data field damaged only");
   if (deleted && id_err == 0 && data_err == 0) vf_witness("deleted-data record with good CRCs");
 }
+
+// ---------------------------------------------------------------- C01-K4 / C18: hexdump_bytes row format, stream state restored
+#ifndef DUMP_BYTES
+#define DUMP_BYTES 9
+#endif
+extern "C" void h_hexdump(void)
+{
+  byte body[DUMP_BYTES];
+  for (unsigned i = 0; i < DUMP_BYTES; ++i) body[i] = vf_nondet_u8();
+  const unsigned n = vf_nondet_u8(); vf_assume(n <= DUMP_BYTES);
+  std::cout << std::hex << std::uppercase;                       // as `dump` does before calling
+  const unsigned before_flags = std::cout.flags();
+  const unsigned first = vfio::nev;
+  const bool ok = DFS::hexdump_bytes(std::cout, 0, 8, body, body + n);
+  vf_assert(ok, "hexdump succeeds");
+  vf_assert(std::cout.flags() == before_flags, "the stream's format flags are restored");
+  vf_assert(!vfio::overflow, "event log large enough");
+  // expected rows: ceil(n/8) rows (none for n == 0); row r: offset 8r as 6 decimal digits zero-filled, 8 cells of
+  // ' ' + two upper-case hex digits (or " **" beyond the end), ' ', 8 characters (the byte if printable else '.'), newline
+  unsigned e = first;
+  const unsigned rows = (n + 7) / 8;
+  for (unsigned r = 0; r < 2; ++r)
+    if (r < rows)
+      {
+        vf_assert(vfio::ev_kind[e] == vfio::K_NUM && vfio::ev_val[e] == 8 * r && vfio::ev_base[e] == 10 && vfio::ev_width[e] == 6 && vfio::ev_fill[e] == '0', "row offset: 6 decimal digits");
+        ++e;
+        for (unsigned c = 0; c < 8; ++c)
+          {
+            const unsigned idx = 8 * r + c;
+            if (idx < n)
+              {
+                vf_assert(vfio::ev_kind[e] == vfio::K_CHAR && vfio::ev_val[e] == ' ', "cell separator"); ++e;
+                vf_assert(vfio::ev_kind[e] == vfio::K_NUM && vfio::ev_val[e] == body[idx] && vfio::ev_base[e] == 16 && vfio::ev_width[e] == 2 && vfio::ev_fill[e] == '0' && vfio::ev_upper[e], "byte as two upper-case hex digits");
+                ++e;
+              }
+            else { vf_assert(vfio::ev_kind[e] == vfio::K_TEXT, "padding cell beyond the end of the data"); ++e; }
+          }
+        vf_assert(vfio::ev_kind[e] == vfio::K_CHAR && vfio::ev_val[e] == ' ', "separator before the character column"); ++e;
+        for (unsigned c = 0; c < 8; ++c)
+          {
+            const unsigned idx = 8 * r + c;
+            const unsigned ch = idx < n ? body[idx] : '.';
+            const unsigned shown = (ch == ' ' || (ch > 0x20 && ch < 0x7F)) ? ch : '.';
+            vf_assert(vfio::ev_kind[e] == vfio::K_CHAR && vfio::ev_val[e] == shown, "character column: the byte itself if printable ASCII, otherwise a dot");
+            ++e;
+          }
+        vf_assert(vfio::ev_kind[e] == vfio::K_CHAR && vfio::ev_val[e] == '\n', "end of row"); ++e;
+      }
+  vf_assert(vfio::nev == e, "nothing else is printed");
+  for (unsigned i = 0; i < vfio::MAXEV; ++i) if (i >= first && i < vfio::nev) vf_assert(vfio::ev_stream[i] == 1, "everything goes to the stream that was passed in");
+  vf_observe(vfio::nev - first);
+  if (n == 9) vf_witness("one full row and one row with a single byte");
+  if (n == 0) vf_witness("empty file");
+}
